@@ -109,13 +109,13 @@ Lemma rot_done e0 e1 e2 e3 r n fl c tr tm w' :
   fs w' = rotate [e0; e1; e2; e3] /\ (c = None -> fault w' = None).
 Proof.
   unfold mk4. intros H.
-  destruct e0, e1, e2, e3; case_fault c; cbn in H; inversion H; subst; cbn; split;
-    try reflexivity; try discriminate; intros _; reflexivity.
+  destruct e0, e1, e2, e3; case_fault c; vm_compute in H; inversion H; subst; split;
+    try (vm_compute; reflexivity); try discriminate; intros _; reflexivity.
 Qed.
 
 Lemma rot_nofault e0 e1 e2 e3 r n fl tr tm :
   raised (incr 3 0 (mk4 e0 e1 e2 e3 r n fl None tr tm)) = false.
-Proof. unfold mk4. destruct e0, e1, e2, e3; reflexivity. Qed.
+Proof. unfold mk4. destruct e0, e1, e2, e3; vm_compute; reflexivity. Qed.
 
 Lemma rot_raised ub e0 e1 e2 e3 r n fl c tr tm w' :
   incr 3 0 (mk4 e0 e1 e2 e3 r n fl c tr tm) = Raised w' ->
@@ -125,6 +125,190 @@ Lemma rot_raised ub e0 e1 e2 e3 r n fl c tr tm w' :
   /\ (nopartial [e0; e1; e2; e3] = true -> nopartial (fs w') = true).
 Proof.
   unfold mk4. intros H D S P.
-  destruct e0, e1, e2, e3; try discriminate P; case_fault c; cbn in H; inversion H; subst; clear H;
+  destruct e0, e1, e2, e3; try discriminate P; case_fault c; vm_compute in H; inversion H; subst; clear H;
     cbn in *; repeat split; try reflexivity; try lia; try discriminate.
+Qed.
+
+(* ------------------------------------------------------------------ *)
+(** * Part 2: member writes, the writer, one save *)
+Ltac pc o eff w w0 :=
+  let E := fresh "E" in let F := fresh "Hfs" in let R := fresh "Hreg" in let N := fresh "Hnuid" in
+  let FL := fresh "Hflag" in let T := fresh "Htmps" in let FN := fresh "Hfault" in let FNN := fresh "Hwas" in
+  destruct (prim_cases o eff w) as [(w0 & E & F & R & N & FL & T & FN)|(w0 & E & F & R & N & FL & T & FN & FNN)];
+  rewrite E.
+
+(** what the hypotheses of the lemmas below say about two worlds *)
+Definition same_sess (a b : world) : Prop :=
+  reg a = reg b /\ nuid a = nuid b /\ flag a = flag b.
+
+Lemma cleanup_spec w :
+  let r := cleanup w in
+  fs (wof r) = fs w /\ same_sess (wof r) w /\ (fault w = None -> raised r = false /\ fault (wof r) = None).
+Proof.
+  unfold cleanup, same_sess.
+  pc TCleanup (fun w : world => w) (set_tmps (pred (tmps w)) w) w0; cbn in *; repeat split; auto; try congruence;
+    try (intros Hn; exfalso; apply Hwas; exact Hn).
+Qed.
+
+Lemma unwind_n_spec n : forall w,
+  let r := unwind_n n w in
+  fs (wof r) = fs w /\ same_sess (wof r) w /\ (fault w = None -> raised r = false /\ fault (wof r) = None).
+Proof.
+  induction n as [|n IH]; intros w; cbn [unwind_n].
+  - cbn. unfold same_sess. repeat split; auto.
+  - pose proof (cleanup_spec w) as (A & B & C). destruct (cleanup w) as [w1|w1]; cbn in *.
+    + specialize (IH w1). cbn in IH. destruct IH as (A' & (b1 & b2 & b3) & C'). destruct B as (c1 & c2 & c3).
+      split; [congruence|]. split; [unfold same_sess; repeat split; congruence|].
+      intros Hn. destruct (C Hn) as (_ & Hn1). exact (C' Hn1).
+    + split; [exact A|]. split; [exact B|]. intros Hn. destruct (C Hn) as (X & _). discriminate X.
+Qed.
+
+Lemma unwind_spec w :
+  let r := unwind w in
+  fs (wof r) = fs w /\ same_sess (wof r) w /\ (fault w = None -> raised r = false /\ fault (wof r) = None).
+Proof. apply unwind_n_spec. Qed.
+
+(** one member operation *)
+Lemma sop_step_spec f o w :
+  let r := sop_step f o w in
+  same_sess (wof r) w
+  /\ (fault w = None -> raised r = false /\ fault (wof r) = None)
+  /\ match f with
+     | Zip => fs (wof r) = fs w
+     | Dir => forall g n t, fs w = Partial g n :: t -> exists n', fs (wof r) = Partial g n' :: t
+     end.
+Proof.
+  assert (Hb : forall x g n t, fs x = Partial g n :: t -> fs (bump Dir x) = Partial g (S n) :: t).
+  { intros x g n t Hx. unfold bump, slot. rewrite Hx. cbn. rewrite Hx. reflexivity. }
+  assert (Hs : forall x, same_sess (bump f x) x).
+  { intros x. destruct (fs_only_bump f x) as (a & b & c & _). unfold same_sess. auto. }
+  assert (Hf : forall x, fault (bump f x) = fault x).
+  { intros x. destruct (fs_only_bump f x) as (_ & _ & _ & _ & e). exact e. }
+  unfold same_sess in *.
+  destruct o; cbn [sop_step].
+  - (* SOpen *) pc TOpen noeff w w0; unfold noeff; cbn; repeat split; auto; try congruence;
+      try (intros Hn; exfalso; apply Hwas; exact Hn);
+      destruct f; [congruence| intros g n t Hw; exists n; congruence | congruence | intros g n t Hw; exists n; congruence].
+  - (* SFill *)
+    pc TFill noeff (bump f w) w0; unfold noeff; cbn; destruct (Hs w) as (s1 & s2 & s3); rewrite Hf in *;
+      repeat split; try congruence; auto;
+      try (intros Hn; exfalso; apply Hwas; exact Hn);
+      destruct f; try (unfold bump in *; congruence);
+      intros g n t Hw; exists (S n); rewrite Hfs; apply Hb; exact Hw.
+  - (* SMkdir *)
+    destruct creates.
+    + pc (TMkdir true) (bump f) w w0; cbn.
+      * destruct (Hs w0) as (s1 & s2 & s3). rewrite Hf. repeat split; try congruence; auto.
+        destruct f; [unfold bump; congruence|].
+        intros g n t Hw. exists (S n). apply Hb. congruence.
+      * repeat split; try congruence; try (intros Hn; exfalso; apply Hwas; exact Hn).
+        destruct f; [congruence|]. intros g n t Hw. exists n. congruence.
+    + pc (TMkdir false) noeff w w0; unfold noeff; cbn; repeat split; auto; try congruence;
+        try (intros Hn; exfalso; apply Hwas; exact Hn);
+        destruct f; [congruence| intros g n t Hw; exists n; congruence | congruence | intros g n t Hw; exists n; congruence].
+  - pc TDump noeff w w0; unfold noeff; cbn; repeat split; auto; try congruence;
+      try (intros Hn; exfalso; apply Hwas; exact Hn);
+      destruct f; [congruence| intros g n t Hw; exists n; congruence | congruence | intros g n t Hw; exists n; congruence].
+  - pc TCopy noeff w w0; unfold noeff; cbn; repeat split; auto; try congruence;
+      try (intros Hn; exfalso; apply Hwas; exact Hn);
+      destruct f; [congruence| intros g n t Hw; exists n; congruence | congruence | intros g n t Hw; exists n; congruence].
+  - pc TTmpdir tmp_inc w w0; unfold tmp_inc; cbn; repeat split; auto; try congruence;
+      try (intros Hn; exfalso; apply Hwas; exact Hn);
+      destruct f; [congruence| intros g n t Hw; exists n; congruence | congruence | intros g n t Hw; exists n; congruence].
+  - (* SCleanup *)
+    pose proof (cleanup_spec w) as (A & B & C). cbn in *. split; [exact B|]. split; [exact C|].
+    destruct f; [exact A|]. intros g n t Hw. exists n. congruence.
+  - pc TROpen noeff w w0; unfold noeff; cbn; repeat split; auto; try congruence;
+      try (intros Hn; exfalso; apply Hwas; exact Hn);
+      destruct f; [congruence| intros g n t Hw; exists n; congruence | congruence | intros g n t Hw; exists n; congruence].
+  - pc TRFill noeff w w0; unfold noeff; cbn; repeat split; auto; try congruence;
+      try (intros Hn; exfalso; apply Hwas; exact Hn);
+      destruct f; [congruence| intros g n t Hw; exists n; congruence | congruence | intros g n t Hw; exists n; congruence].
+  - pc TLoad noeff w w0; unfold noeff; cbn; repeat split; auto; try congruence;
+      try (intros Hn; exfalso; apply Hwas; exact Hn);
+      destruct f; [congruence| intros g n t Hw; exists n; congruence | congruence | intros g n t Hw; exists n; congruence].
+Qed.
+
+Lemma run_shape_spec f sh : forall w,
+  let r := run_shape f sh w in
+  same_sess (wof r) w
+  /\ (fault w = None -> raised r = false /\ fault (wof r) = None)
+  /\ match f with
+     | Zip => fs (wof r) = fs w
+     | Dir => forall g n t, fs w = Partial g n :: t -> exists n', fs (wof r) = Partial g n' :: t
+     end.
+Proof.
+  induction sh as [|o sh IH]; intros w; cbn [run_shape].
+  - cbn. unfold same_sess. repeat split; auto. destruct f; auto. intros g n t H. exists n. exact H.
+  - pose proof (sop_step_spec f o w) as (A & B & C). destruct (sop_step f o w) as [w1|w1]; cbn in *.
+    + specialize (IH w1). cbn in IH. destruct IH as ((b1 & b2 & b3) & B' & C'). destruct A as (c1 & c2 & c3).
+      split; [unfold same_sess; repeat split; congruence|]. split.
+      * intros Hn. destruct (B Hn) as (_ & Hn1). exact (B' Hn1).
+      * destruct f; [congruence|]. intros g n t Hw. destruct (C g n t Hw) as (n1 & H1).
+        destruct (C' g n1 t H1) as (n2 & H2). exists n2. exact H2.
+    + split; [exact A|]. split; [|exact C]. intros Hn. destruct (B Hn) as (X & _). discriminate X.
+Qed.
+
+Lemma writer_fin_spec f w :
+  let r := writer_fin f w in
+  fs (wof r) = fs w /\ reg (wof r) = reg w /\ nuid (wof r) = nuid w /\ flag (wof r) = false
+  /\ (fault w = None -> raised r = false).
+Proof.
+  unfold writer_fin. destruct f.
+  - pose proof (unwind_spec (set_flag false w)) as (A & (b1 & b2 & b3) & C). cbn in *.
+    repeat split; auto. intros Hn. apply C. exact Hn.
+  - cbn. repeat split; auto.
+Qed.
+
+(** outcome of the writer on a path that the rotation left empty *)
+Definition writer_post (f : fmt) (g : nat) (t : fsys) (w : world) (r : res) : Prop :=
+  flag (wof r) = false /\ reg (wof r) = reg w /\ nuid (wof r) = nuid w /\
+  ((fs (wof r) = Absent :: t /\ raised r = true)
+   \/ (exists n, fs (wof r) = Good g f n :: t)
+   \/ (f = Dir /\ raised r = true /\ exists n, fs (wof r) = Partial g n :: t)) /\
+  (fault w = None -> raised r = false /\ exists n, fs (wof r) = Good g f n :: t).
+
+(** a raise inside the try block that left the file system as it was *)
+Lemma fin_after_raise f g t w w1 :
+  fs w1 = Absent :: t -> reg w1 = reg w -> nuid w1 = nuid w -> fault w <> None ->
+  writer_post f g t w (Raised (wof (writer_fin f w1))).
+Proof.
+  intros Hfs Hr Hn Hf. pose proof (writer_fin_spec f w1) as (A & B & C & D & _). cbn in *.
+  unfold writer_post. cbn. repeat split; try congruence.
+  - left. split; congruence.
+  - intros X. contradiction.
+Qed.
+
+Lemma writer_dir_spec sh g w t :
+  fs w = Absent :: t -> writer_post Dir g t w (writer Dir sh g w).
+Proof.
+  intros Hw. unfold writer, try_finally, writer_body.
+  set (w1 := set_flag true w).
+  assert (Hw1 : fs w1 = Absent :: t) by exact Hw.
+  replace (slot (fs w1) 0) with Absent by (rewrite Hw1; reflexivity). cbn [present negb].
+  pc (TMkdir true) (mkroot_dir g) w1 w0; cbn [andthen].
+  - (* root directory made *)
+    assert (H0 : fs (mkroot_dir g w0) = Partial g 1 :: t).
+    { unfold mkroot_dir, slot. rewrite Hfs, Hw1. cbn. rewrite Hfs, Hw1. reflexivity. }
+    destruct (fs_only_mkroot g w0) as (m1 & m2 & m3 & m4 & m5).
+    pose proof (run_shape_spec Dir sh (mkroot_dir g w0)) as ((a1 & a2 & a3) & B & C). cbn in C.
+    destruct (C g 1 t H0) as (n' & Hn').
+    destruct (run_shape Dir sh (mkroot_dir g w0)) as [w2|w2]; cbn [andthen wof] in *.
+    + (* complete *)
+      assert (Hc : fs (complete w2) = Good g Dir n' :: t).
+      { unfold complete, slot. rewrite Hn'. cbn. rewrite Hn'. reflexivity. }
+      unfold writer_fin. cbn. unfold writer_post. cbn.
+      assert (Hrc : reg (complete w2) = reg w2 /\ nuid (complete w2) = nuid w2).
+      { unfold complete. destruct (slot (fs w2) 0); cbn; auto. }
+      destruct Hrc as (r1 & r2).
+      repeat split; try congruence.
+      * right. left. exists n'. exact Hc.
+      * exists n'. exact Hc.
+    + (* a member failed *)
+      unfold writer_fin. cbn. unfold writer_post. cbn. repeat split; try congruence.
+      * right. right. repeat split. exists n'. exact Hn'.
+      * intros Hn. exfalso. rewrite m5 in B. destruct B as (X & _); [apply Hfault; exact Hn|discriminate X].
+      * intros Hn. exfalso. rewrite m5 in B. destruct B as (X & _); [apply Hfault; exact Hn|discriminate X].
+  - (* mkdir of the root failed *)
+    apply fin_after_raise; try congruence.
 Qed.
